@@ -157,10 +157,12 @@ func decodeVariablesMetadata(source io.Reader, version primitive.ProtocolVersion
 			return nil, fmt.Errorf("cannot read RESULT Prepared variables metadata pk indices length: %w", err)
 		}
 		if pkCount > 0 {
-			metadata.PkIndices = make([]uint16, pkCount)
+			metadata.PkIndices = make([]uint16, 0, primitive.BoundedCapacity(pkCount))
 			for i := 0; i < int(pkCount); i++ {
-				if metadata.PkIndices[i], err = primitive.ReadShort(source); err != nil {
+				if pkIndex, err := primitive.ReadShort(source); err != nil {
 					return nil, fmt.Errorf("cannot read RESULT Prepared variables metadata pk index element %d: %w", i, err)
+				} else {
+					metadata.PkIndices = append(metadata.PkIndices, pkIndex)
 				}
 			}
 		}
@@ -343,8 +345,11 @@ func decodeColumnsMetadata(globalTableSpec bool, columnCount int32, source io.Re
 	if columnCount < 0 {
 		return nil, fmt.Errorf("invalid column count: %d", columnCount)
 	}
-	cols = make([]*ColumnMetadata, columnCount)
+	cols = make([]*ColumnMetadata, primitive.BoundedCapacity(columnCount))
 	for i := 0; i < int(columnCount); i++ {
+		if i == len(cols) {
+			cols = append(cols, nil) // the count comes from the wire: grow as the columns actually arrive
+		}
 		cols[i] = &ColumnMetadata{}
 		if globalTableSpec {
 			cols[i].Keyspace = globalKsName
